@@ -1,12 +1,15 @@
 ----------------------------- MODULE SilkTrace -----------------------------
-(* Validation of recorded calls of the real SILK dequantisers (hx_silk)     *)
-(* against module SilkParams.  Stateless: one initial state per recorded    *)
-(* case; every event carries the inter-frame references it started from.    *)
+(* Validation of recorded calls of the real SILK dequantisers and of the    *)
+(* encoder-side quantisers (hx_silk) against module SilkParams.  Stateless: *)
+(* one initial state per recorded case; every event carries the inter-frame *)
+(* references it started from.  Event kinds: gd gq pl nd dp di ne pa (ns,   *)
+(* ne_abort carry no claim).                                               *)
 (*                                                                         *)
 (*   CaseOK    the clauses of property C18 (a rejection is a VIOLATION)     *)
 (*   ModelOK   exact reference sub-models of code the property leaves free  *)
-(*             (the encoder's choice of gain index) - a rejection is        *)
-(*             reported as SPEC-DRIFT only                                  *)
+(*             (the encoder's choice of gain index; the stabiliser on       *)
+(*             vectors no bitstream produces) - a rejection is reported as  *)
+(*             SPEC-DRIFT only                                              *)
 EXTENDS SilkParams
 VARIABLE l
 
@@ -145,6 +148,7 @@ CaseOK == LET e == Tr[l] IN
           ELSE IF e.k = "di" THEN DiOK(e)
           ELSE IF e.k = "ne" THEN NeOK(e)
           ELSE IF e.k = "pa" THEN PaOK(e)
+          ELSE IF e.k = "ne_abort" THEN TRUE      \* input outside the quantiser's 32-bit arithmetic domain: counted, no claim
           ELSE IF e.k = "ns" THEN TRUE
           ELSE FALSE
 
